@@ -42,12 +42,6 @@ mod verif_kani_state {
         c.vendor_id_selector.set(kani::any());
     }
 
-    /// recorded panic class D9c (same predicate as spec/verif_prelude.rs: decode_known_panic): a control response whose
-    /// completion code is above 0x05.  (D9a/b and D10a-c are fixed: no other input is excluded.)
-    fn known_panic(p: &[u8], _n_vendor: usize) -> bool {
-        p.len() >= 13 && p[4] == 1 && p[8] == 0 && p[9] & 0x80 == 0 && p[11] > 5
-    }
-
     // ------------------------------------------------------------------ K.cell.acc (C13)
     #[kani::proof]
     fn k_cell_acc() {
@@ -156,7 +150,6 @@ mod verif_kani_state {
         let len: usize = kani::any();
         kani::assume(len <= L);
         let p = &buf[0..len];
-        kani::assume(!known_panic(p, 1));
         let assigning = len == 14 && p[4] == 1 && p[8] == 0 && p[9] & 0x80 != 0 && p[10] == 1 && (p[11] == 0 || p[11] == 1);
         let rb0: [u8; 64] = kani::any();
         let mut rb = rb0;
@@ -207,7 +200,6 @@ mod verif_kani_state {
         let len: usize = kani::any();
         kani::assume(len <= 24);
         let p = &buf[0..len];
-        kani::assume(!known_panic(p, 1));
         let _ = c.decode_packet(p);
         let _ = c.get_length(p);
         assert!(c.get_request().get_eid() == e0r && c.get_response().get_eid() == e0s && c.vendor_id_selector.get() == s0);
